@@ -7,7 +7,7 @@ import numpy as np
 from hypothesis import strategies as st
 
 from .. import gen, model, schema
-from ..core import Ctx, Violation, call, check, per_shard, run_given
+from ..core import Ctx, Violation, call, check, per_shard, run_given, given_part, machine_part, run_parts
 
 PID = "C06"
 LEVEL = "exploration"
@@ -334,6 +334,7 @@ def replay(ctx: Ctx, case):
 
 def run(ctx: Ctx):
     q = ctx.tier == "quick"
+    parts = []
     if ctx.shard == 0 or (not q and ctx.shard < 3):
         case = {"part": "big", "mergebuf": [400_000, 1_000_001, 50_000][ctx.shard % 3]}
         try:
@@ -348,11 +349,10 @@ def run(ctx: Ctx):
         except Violation as e:
             ctx.add_violation(case, str(e))
             return
-    if not run_given(ctx, "unordered", cases(), check_unordered, per_shard(ctx, 1100 if q else 36000), batch=50):
-        return
+    parts.append(given_part(ctx, "unordered", cases(), check_unordered, per_shard(ctx, 1100 if q else 36000), batch=50))
     cli = cases().filter(lambda c: c["count_dtype"] == "int32").map(lambda c: dict(c, part="cli"))
-    if not run_given(ctx, "cli-load", cli, check_cli, per_shard(ctx, 160 if q else 4000), batch=20):
-        return
+    parts.append(given_part(ctx, "cli-load", cli, check_cli, per_shard(ctx, 160 if q else 4000), batch=20))
     if not q:
         # larger tables and more chunks: more epochs per merge, more rows split across chunks
-        run_given(ctx, "unordered-wide", cases(5, 9, 16), check_unordered, per_shard(ctx, 12000), batch=50)
+        parts.append(given_part(ctx, "unordered-wide", cases(5, 9, 16), check_unordered, per_shard(ctx, 12000), batch=50))
+    run_parts(ctx, parts)
